@@ -531,7 +531,8 @@ func (t *AHtree) InclusionProof(i, j uint64) (p [][sha256.Size]byte, err error) 
 		return
 	}
 
-	if i > j {
+	// leaves are numbered from 1: i == 0 would wrap to 2^64-1 in the proof arithmetic
+	if i == 0 || i > j {
 		return nil, ErrIllegalArguments
 	}
 
@@ -585,7 +586,8 @@ func (t *AHtree) ConsistencyProof(i, j uint64) (p [][sha256.Size]byte, err error
 		return
 	}
 
-	if i > j {
+	// leaves are numbered from 1: i == 0 would wrap to 2^64-1 in the proof arithmetic
+	if i == 0 || i > j {
 		return nil, ErrIllegalArguments
 	}
 
